@@ -72,11 +72,12 @@ def c20_job(ctx):
         tasks.append((name, cmd, meta))
 
     # ---- 1. matrix bundles: one TU per (label kind, standard, compiler), syntax only
-    cells_by_kind = {k: catalogue.instances(k) for k in catalogue.KINDS}
-    for kind, cells in cells_by_kind.items():
-        p = os.path.join(work, "bundle_%s.cpp" % kind)
-        open(p, "w").write(bundle_source(kind, cells, H, False))
+    cells_by_kind = {k: catalogue.instances(k, "c++14") for k in catalogue.KINDS}   # programs that must build under every standard
+    cells_by = {(k, std): catalogue.instances(k, std) for k in catalogue.KINDS for std in stds}
+    for kind in catalogue.KINDS:
         for std in stds:
+            p = os.path.join(work, "bundle_%s_%s.cpp" % (kind, std.replace("+", "p")))
+            open(p, "w").write(bundle_source(kind, cells_by[(kind, std)], H, False))
             for cxx in COMPILERS:
                 add("bundle", compile_cmd(cxx, std, repo, ["-fsyntax-only", p]), dict(kind=kind, std=std, cxx=cxx, src=p))
     # ---- 2. every header on its own, once and twice
@@ -108,11 +109,11 @@ def c20_job(ctx):
     failed_bundles = []
     for (name, cmd, meta), (rc, log) in results.values():
         if name == "bundle":
-            ncells = len(cells_by_kind[meta["kind"]])
+            ncells = len(cells_by[(meta["kind"], meta["std"])])
             evaluations += ncells
             if rc == 0:
                 if meta["kind"] not in ("none", "int"):
-                    for cid, _ in cells_by_kind[meta["kind"]]:
+                    for cid, _ in cells_by[(meta["kind"], meta["std"])]:
                         nontrivial.add("%s|%s|%s" % (cid, meta["std"], meta["cxx"]))
             else:
                 failed_bundles.append((meta, log))
@@ -135,7 +136,7 @@ def c20_job(ctx):
     # ---- bisect failing bundles cell by cell
     bis = []
     for meta, log in failed_bundles:
-        for cid, body in cells_by_kind[meta["kind"]]:
+        for cid, body in cells_by[(meta["kind"], meta["std"])]:
             p = os.path.join(work, "cell_%s.cpp" % hashlib.sha1((cid + meta["std"] + meta["cxx"]).encode()).hexdigest()[:12])
             open(p, "w").write(bundle_source(meta["kind"], [(cid, body)], H, False))
             bis.append((cid, meta, p, compile_cmd(meta["cxx"], meta["std"], repo, ["-fsyntax-only", p])))
